@@ -156,6 +156,18 @@ pub fn check(c: &Case, seams_open: bool) -> CheckResult {
     }
     o.class_if(sharp && hw_dev >= 1.5, "join-visible");
     o.class_if(reversal, "reversal");
+    {
+        // an exactly right-angled corner (axis-parallel segments) under a miter limit between 1 and sqrt 2
+        let mut right = false;
+        for p in &polys {
+            let n = p.pts.len();
+            for i in 1..n.saturating_sub(1) {
+                let (a, b, cc) = (p.pts[i - 1], p.pts[i], p.pts[i + 1]);
+                right |= (a.1 == b.1 && b.0 == cc.0 && a.0 != b.0 && b.1 != cc.1) || (a.0 == b.0 && b.1 == cc.1 && a.1 != b.1 && b.0 != cc.0);
+            }
+        }
+        o.class_if(right && c.style.join == 0 && c.style.miter.0 > 1.0 && c.style.miter.0 < 1.4142 && hw_dev >= 1.5, "exact-right-angle-with-miter-limit-between-1-and-sqrt2");
+    }
     o.class_if(c.path.evenodd && sharp && hw_dev >= 1.5, "evenodd-path-with-visible-join");
     o.class_if(smax(&c.xf) >= 1000.0, "ctm-scale>=1000");
     o.class_if(exact_retrace && c.style.join == 1 && hw_dev >= 1.5, "exact-retrace-with-round-join");
@@ -279,6 +291,27 @@ pub fn stroke_path(ext: f32, allow_curves: bool) -> BoxedStrategy<PathSpec> {
             }
             ops
         });
+    // rectilinear: every segment exactly horizontal or vertical (whole and half coordinates), so that the unit
+    // normals of consecutive segments are exactly perpendicular (dot product exactly 0) or exactly opposite
+    let rect_sub = ((2i32..=(2.0 * ext) as i32 - 2, 2i32..=(2.0 * ext) as i32 - 2), prop::collection::vec((any::<bool>(), prop_oneof![-24i32..=-3, 3i32..=24]), 2..=5), any::<bool>()).prop_map(|((x, y), steps, closed)| {
+        let (mut x, mut y) = (x, y);
+        let mut ops = vec![POp::M(x as f32 / 2.0, y as f32 / 2.0)];
+        let mut horizontal = steps[0].0;
+        for (_, d) in &steps {
+            if horizontal {
+                x += d
+            } else {
+                y += d
+            }
+            ops.push(POp::L(x as f32 / 2.0, y as f32 / 2.0));
+            horizontal = !horizontal;
+        }
+        if closed {
+            ops.push(POp::Z);
+        }
+        ops
+    });
+    let poly_sub = prop_oneof![5 => poly_sub.boxed(), 1 => rect_sub.boxed()];
     let sub = if allow_curves { prop_oneof![1 => poly_sub.boxed(), 1 => curve_sub.boxed()].boxed() } else { poly_sub.boxed() };
     // (the fill rule of the path that is stroked is irrelevant to its stroke; one path in three carries EvenOdd)
     // (a subpath that follows a closed one may also *continue* from that subpath's starting point, without a
@@ -340,7 +373,7 @@ pub fn strategy() -> BoxedStrategy<Case> {
             let ext = w.max(h) as f32;
             let width = prop_oneof![6 => 0.3f32..12.0, 1 => Just(1.0f32), 1 => prop::sample::select(vec![0.0f32, -1.0, f32::NAN])];
             // (large limits: a miter within 1 degree of a reversal is hundreds of half-widths long and still required)
-            let miter = prop_oneof![4 => Just(10.0f32), 2 => Just(4.0f32), 4 => 0.0f32..12.0, 2 => Just(1.4142135f32), 2 => Just(2.0f32), 1 => prop::sample::select(vec![200.0f32, 400.0, 60.0])];
+            let miter = prop_oneof![4 => Just(10.0f32), 2 => Just(4.0f32), 4 => 0.0f32..12.0, 2 => Just(1.4142135f32), 2 => Just(2.0f32), 1 => prop::sample::select(vec![200.0f32, 400.0, 60.0]), 2 => prop::sample::select(vec![1.0f32, 1.1, 1.2, 1.3, 1.4, 1.42, 1.5])];
             // zoom: the same picture in user units `zoom` times smaller under a CTM `zoom` times larger
             let zoom = prop_oneof![12 => Just(1.0f32), 1 => Just(4096.0f32), 1 => Just(65536.0f32), 1 => Just(1.0f32 / 64.0)];
             (Just((w, h)), stroke_path(ext * 0.8, curves), width, 0u8..3, 0u8..3, miter, stroke_xf(curves), zoom)
@@ -356,6 +389,10 @@ pub fn strategy() -> BoxedStrategy<Case> {
             // next to a curve swings by pixels when the tangent there changes by the few hundredths of a radian
             // that two legitimate flattenings differ by; the polyline class covers miters.
             let join = if path.has_curves() && join == 0 { 2 } else { join };
+            // rectilinear paths with a miter join: half of them under a limit between 1 and sqrt 2 (a right angle
+            // has ratio sqrt 2: bevelled there, mitred just above)
+            let rectilinear = !path.has_curves() && path.points().windows(2).all(|p| p[0].0 == p[1].0 || p[0].1 == p[1].1) && path.ops.iter().filter(|o| matches!(o, POp::M(..))).count() == 1;
+            let miter = if rectilinear && join == 0 && (w + h) % 2 == 0 { [1.1f32, 1.2, 1.3, 1.4][((w * 3 + h) % 4) as usize] } else { miter };
             // curves: the half-width stays below 0.4 x the smallest radius of curvature (see stroke_path)
             if path.has_curves() && width > 0.0 {
                 let r = min_curvature_radius(&path);
@@ -498,6 +535,7 @@ pub fn property(ctx: &Ctx) -> Property {
             ("region", "xf:general", 0.1),
             ("region", "ctm-scale>=1000", 0.05),
             ("region", "evenodd-path-with-visible-join", 0.03),
+            ("region", "exact-right-angle-with-miter-limit-between-1-and-sqrt2", 0.003),
         ],
         panic_is_violation: false,
     }
